@@ -237,6 +237,8 @@ static std::string c11_config(Rng &r, const World &w, int *cls) {
     if (r.chance(1, 2)) { s.has_dsmax = true; s.dsmax = r.chance(1, 5) ? "junk" : std::to_string(r.range(255, 400)); }
     if (r.chance(1, 2)) { s.has_logmax = true; s.logmax = r.chance(1, 5) ? "0" : std::to_string(r.range(255, 600)); }
     std::string f = s.render(r, true);
+    // the header itself lost or damaged: the options that follow belong to no section (a fresh process ignores them)
+    if (r.chance(1, 5)) { size_t nl = f.find('\n'); static const char *hdr[] = {"", "[snoopy\n", "[snoop]\n", "snoopy]\n", "; [snoopy]\n"}; f = std::string(hdr[r.below(5)]) + f.substr(nl + 1); if (r.chance(1, 3)) f = "   " + f; if (cls) *cls = 12; return f; }
     // a damaged file: lines the parser rejects next to options it accepts
     if (r.chance(1, 3)) { static const char *bad[] = {"half edited line\n", "[snoopy\n", "message_format\n", "====\n"}; std::string b = bad[r.below(4)]; size_t at = r.chance(1, 2) ? f.size() : f.find('\n') + 1; f.insert(at, b); if (cls) *cls = 11; }
     return f;
@@ -254,7 +256,7 @@ static Plan gen_c11(uint64_t seed, const std::string &tier) {
         if (how == 0 && i > 0) { o.cfg_mode = 1; cls += "D"; }                         // deleted
         else if (how == 1 && i > 0) { o.cfg_mode = 2; o.cfg_errno = r.chance(1, 2) ? 13 : 5; cls += "U"; } // unreadable
         else if (how == 2 && i > 0) { cls += "="; o.op = ""; }                           // unchanged
-        else { int c; o.cfg_mode = 0; o.cfg = c11_config(r, w, &c); cls += c == 11 ? 'B' : (char)('0' + c); }
+        else { int c; o.cfg_mode = 0; o.cfg = c11_config(r, w, &c); cls += c == 11 ? 'B' : c == 12 ? 'H' : (char)('0' + c); }
         if (!o.op.empty()) p.ops.push_back(o);
         ExecOp e; e.api = (int)r.below(2); e.path = "/bin/call" + std::to_string(i); size_t L = r.chance(1, 4) ? (size_t)r.range(250, 700) : 5; e.argv = {"a" + std::to_string(i), std::string(L, 'x')};
         e.success = false; e.err = 2; e.ret = -1;
@@ -297,5 +299,6 @@ static void describe_c11(const Plan &p, const RunResult &, J &line) {
     if (c.find('2') != std::string::npos) line.set("p_corrupted", true);
     if (c.find('0') != std::string::npos) line.set("p_emptied", true);
     if (c.find('B') != std::string::npos) line.set("p_damaged_with_valid_options", true);
+    if (c.find('H') != std::string::npos) line.set("p_header_lost", true);
 }
 static Reg reg_c11({"C11", gen_c11, oracle_c11, abort_sched, describe_c11});
